@@ -391,7 +391,7 @@ func drive() {
 
 func main() {
 	if len(os.Args) < 2 {
-		fmt.Fprintln(os.Stderr, "usage: datascope drive|gen <cases>|oracle <n>|facts <repo>|users <repo>")
+		fmt.Fprintln(os.Stderr, "usage: datascope drive|gen <cases>|oracle <n>|svcdrive|svcgen <cases>|facts <repo>|users <repo>")
 		os.Exit(2)
 	}
 	arg := func(i, def int) int {
@@ -409,6 +409,10 @@ func main() {
 		gen(arg(2, 100))
 	case "oracle":
 		oracle(arg(2, 100))
+	case "svcdrive": // service units on scope trees (svc.go)
+		svcDrive()
+	case "svcgen":
+		svcGenMain(arg(2, 100))
 	case "facts":
 		repo := "/repo"
 		if len(os.Args) > 2 {
